@@ -169,6 +169,9 @@ func c06Same(a, b *benchfmt.Result) bool {
 			return false
 		}
 	}
+	if len(a.Values) == 0 {
+		return true // both without measurements (a nil and an empty slice are the same result)
+	}
 	return reflect.DeepEqual(a.Values, b.Values)
 }
 
@@ -314,7 +317,16 @@ func c06FilterOn(o *hx.Out, res *benchfmt.Result, in c06Input, q string, fam str
 	if fam == "filter" {
 		o.Count(fmt.Sprintf("filter ops AND/OR/NOT/unit=%d/%d/%d/%d", min(strings.Count(q, " AND ")+strings.Count(q, "  "), 3), min(strings.Count(q, " OR "), 3), min(strings.Count(q, "-"), 3), min(strings.Count(q, ".unit"), 3)))
 	}
-	o.Add(c, in, q+"\x00"+in.Name+fmt.Sprint(n, in.Units), nm != 0 && nm != n)
+	o.Add(c, in, q+"\x00"+in.Name+fmt.Sprint(n, in.Units), nm != 0 && nm != n, c06EmptyTags(res)...)
+	return nil
+}
+
+// c06EmptyTags: known finding C06_empty_result_answers concerns exactly the
+// results WITHOUT measurements (a predicate of the input result).
+func c06EmptyTags(res *benchfmt.Result) []string {
+	if len(res.Values) == 0 {
+		return []string{"c06_result_without_measurements"}
+	}
 	return nil
 }
 
@@ -475,8 +487,45 @@ func c06FixedOn(o *hx.Out, res *benchfmt.Result, in c06Input, q string, projs []
 	c := hx.L(hx.I(2), hx.S(q), hx.SList(projs), c07Oracle(q), name, cfgs, units, c06ReTable(q, res),
 		matched, hx.Bool(m.All()), hx.Bool(m.Any()), hx.List(pvals))
 	o.Count(fmt.Sprintf("%s n=%d kept=%v", fam, n, nm > 0))
-	o.Add(c, in, "F"+q+"\x00"+strings.Join(projs, "\x00")+in.Name, true)
+	o.Add(c, in, "F"+q+"\x00"+strings.Join(projs, "\x00")+in.Name, true, c06EmptyTags(res)...)
 	return nil
+}
+
+// c06Empty: results WITHOUT measurements - built that way, or emptied by an
+// earlier Apply of a filter that drops every measurement (res.Values[:0]).
+func c06Empty(o *hx.Out, r *hx.Rng) error {
+	res, in := c06Result(r, 0)
+	how := "built"
+	if r.Chance(0.5) {
+		how = "emptied-by-Apply"
+		res, in = c06Result(r, []int{1, 2, 33}[r.Intn(3)])
+		f0, err := benchproc.NewFilter(".unit:nosuchunit")
+		if err != nil {
+			return err
+		}
+		if ok, _ := f0.Apply(res); ok || len(res.Values) != 0 {
+			return fmt.Errorf("empty: the first Apply kept %d measurements", len(res.Values))
+		}
+		in.Units = nil
+	}
+	o.Count("class:empty-result:" + how)
+	switch r.Intn(4) {
+	case 0:
+		q := "*"
+		if r.Chance(0.6) {
+			q = c06Expr(r, 1, c06Candidates(res))
+		}
+		var projs []string
+		for i := r.Range(1, 2); i > 0; i-- {
+			projs = append(projs, c06Projs[r.Intn(len(c06Projs))])
+		}
+		return c06FixedOn(o, res, in, q, projs, "empty-fixed")
+	case 1:
+		q := r.Pick([]string{"*", "-*", "goos:linux", "-goos:linux", ".unit:x", "-.unit:x", "goos:linux .unit:x", "-goos:linux OR .unit:x",
+			".unit:x OR *", "* .unit:x", "-(.unit:x OR goos:linux)", ".unit:(x OR y) -.unit:z"})
+		return c06FilterOn(o, res, in, q, "empty")
+	}
+	return c06FilterOn(o, res, in, c06Expr(r, r.Range(0, 3), append(c06Candidates(res), "ns/op", "sec/op")), "empty")
 }
 
 // ---- (C06-a) a fixed list on .fullname with .name / sub-name keys projected
@@ -769,12 +818,13 @@ type c06HistInput struct {
 	Steps  []c06HistStep `json:"steps"`
 }
 
-// fixed fields (no .fullname: its extractor freezes at the first result seen)
-// that tell the pool of c06HistResult apart, other valid fields, and fields
+// fixed fields that tell the pool of c06HistResult apart (.fullname lists
+// too: the history keeps inside the parser's contract, see c06Hist), other valid fields, and fields
 // that are rejected for a SEMANTIC reason only after the fields before them
 // have been processed
 var c06HistFixed = []string{"/size@(4k)", "/size@(8k 16k)", "/k@(1)", "/k@(2 3)", ".name@(Fib)", ".name@(X Sort)", "goos@(linux)", "goos@(darwin plan9)",
-	"/gomaxprocs@(2)", "pkg@(nosuch)", `goarch@("")`, "/k@(zz)", `"a b"@("x y")`}
+	"/gomaxprocs@(2)", "pkg@(nosuch)", `goarch@("")`, "/k@(zz)", `"a b"@("x y")`,
+	".fullname@(Sort/size=4k Sort/size=8k Fib/k=3-2)", ".fullname@(Sort Fib X)", `.fullname@("*" Sort-8 Sort/gomaxprocs=2)`, ".fullname@(Fib/k=1 X/k=2 X/k=1 Fib/size=4k)"}
 var c06HistPlain = []string{"/k", ".name", "goos", "pkg", ".config", ".fullname", "/size@alpha", "/gomaxprocs@num", "goarch@first"}
 var c06HistBad = []string{".name@nosuchorder", ".unit", ".config@(a b)", "goos@fixed", "/k@bogus", ".unit@alpha", `""`, "pkg@Alpha", ".config@fixed", ".fullname@nosuchorder"}
 
@@ -802,6 +852,10 @@ func c06Hist(o *hx.Out, r *hx.Rng, directed int) (err error) {
 		pool, pin = append(pool, res), append(pin, in)
 	}
 	q := "*"
+	full := directed == 3 // the .fullname family: random apart from its prologue
+	if full {
+		directed = -1
+	}
 	if directed < 0 && r.Chance(0.5) {
 		var cands []string
 		for _, res := range pool {
@@ -821,7 +875,40 @@ func c06Hist(o *hx.Out, r *hx.Rng, directed int) (err error) {
 		rt = append(rt, c06ReTableList(q, res)...)
 	}
 	sep := func() string { return r.Pick([]string{" ", ",", ", ", "  "}) }
+	// The parser's contract (projection.go: the .fullname extractor is
+	// "constructed when the first Result is processed", from the keys of ALL
+	// Parse calls): once a fixed list on .fullname was parsed (armed) and a
+	// result went through the Filter since (frozen), no SUCCESSFUL Parse may
+	// add a sub-name key or .name.  Failed calls are unrestricted.
+	armed, frozen := false, false
+	parseProj := parse.ParseProjection // the closure below shadows the package name
+	subKeys := func(pe string) (sub, fixedFull bool) {
+		fs, err := parseProj(pe)
+		if err != nil {
+			return false, false
+		}
+		for _, f := range fs {
+			if f.Key == ".name" || strings.HasPrefix(f.Key, "/") {
+				sub = true
+			}
+			if f.Key == ".fullname" && f.Order == "fixed" {
+				fixedFull = true
+			}
+		}
+		return
+	}
+	accepted := func(pe string) bool {
+		f2, _ := benchproc.NewFilter("*")
+		var p2 benchproc.ProjectionParser
+		_, e := p2.Parse(pe, f2)
+		return e == nil
+	}
 	parse := func(pe string, withUnit bool) bool {
+		sub, fixedFull := subKeys(pe)
+		if frozen && sub && accepted(pe) {
+			o.Count("history:skipped-Parse-outside-the-parser-contract")
+			return false
+		}
 		var perr error
 		op := "Parse"
 		if withUnit {
@@ -832,9 +919,14 @@ func c06Hist(o *hx.Out, r *hx.Rng, directed int) (err error) {
 		}
 		steps = append(steps, hx.L(hx.I(0), hx.S(pe), hx.Bool(withUnit), hx.Bool(perr == nil)))
 		in.Steps = append(in.Steps, c06HistStep{Op: op, Proj: pe, Failed: perr != nil})
+		if perr == nil && fixedFull {
+			armed = true
+			o.Count("class:history:fixed-list-on-.fullname-parsed")
+		}
 		return perr == nil
 	}
 	use := func(k int) error {
+		frozen = frozen || armed
 		res, rin := pool[k], pin[k]
 		n := len(res.Values)
 		name, cfgs, units := c06ResSx(res)
@@ -925,7 +1017,7 @@ func c06Hist(o *hx.Out, r *hx.Rng, directed int) (err error) {
 		}
 		return pe, excludes(fx)
 	}
-	good := func() string {
+	good1 := func() string {
 		pe := c06HistPlain[r.Intn(len(c06HistPlain))]
 		if r.Chance(0.6) {
 			pe = c06HistFixed[r.Intn(len(c06HistFixed))]
@@ -934,6 +1026,77 @@ func c06Hist(o *hx.Out, r *hx.Rng, directed int) (err error) {
 			pe += sep() + c06HistPlain[r.Intn(len(c06HistPlain))]
 		}
 		return pe
+	}
+	good := func() string {
+		pe := good1()
+		for try := 0; frozen && try < 20; try++ {
+			if sub, _ := subKeys(pe); !sub {
+				break
+			}
+			pe = good1()
+		}
+		return pe
+	}
+	if full {
+		// prologue, all of it BEFORE the first result: 1-2 Parse calls that fail
+		// AFTER fields with sub-name keys / .name, possibly a successful one with
+		// such keys, and a fixed list on .fullname - in any order.  The list is
+		// chosen among the pool's names as written, as projected under the keys
+		// of the SUCCESSFUL calls, and as they would be projected if the failed
+		// calls' keys counted too.
+		subPieces := []string{"/size", "/size@(4k)", "/k", ".name", ".name@(Sort Fib X)", "/gomaxprocs", "/size@alpha", "/k@(1 2 3)", "/size@(4k 8k 16k 2k)"}
+		var calls []string
+		var failKeys, okKeys []string
+		keysOf := func(pe string) []string {
+			var ks []string
+			fs, _ := parseProj(pe)
+			for _, f := range fs {
+				ks = append(ks, f.Key)
+			}
+			return ks
+		}
+		for i := r.Range(1, 2); i > 0; i-- {
+			pe := subPieces[r.Intn(len(subPieces))]
+			if r.Chance(0.4) {
+				pe += sep() + subPieces[r.Intn(len(subPieces))]
+			}
+			pe += sep() + r.Pick([]string{".unit", ".name@nosuchorder", ".config@(a b)", "goos@fixed", "/k@bogus"})
+			failKeys = append(failKeys, keysOf(pe)...)
+			calls = append(calls, pe)
+		}
+		if r.Chance(0.5) {
+			pe := subPieces[r.Intn(len(subPieces))]
+			okKeys = keysOf(pe)
+			calls = append(calls, pe)
+		}
+		var list []string
+		for k := range pool {
+			name := pin[k].Name
+			switch r.Intn(4) {
+			case 0:
+				list = append(list, name)
+			case 1, 2:
+				list = append(list, c06Deleted(name, okKeys))
+			default:
+				list = append(list, c06Deleted(name, append(append([]string{}, okKeys...), failKeys...)))
+			}
+		}
+		for i := range list {
+			list[i] = strconv.Quote(list[i])
+		}
+		fullPe := ".fullname@(" + strings.Join(list, " ") + ")"
+		if r.Chance(0.3) {
+			fullPe += sep() + r.Pick([]string{"goos", "pkg@alpha", ".config"})
+		}
+		at := r.Intn(len(calls) + 1)
+		calls = append(calls[:at], append([]string{fullPe}, calls[at:]...)...)
+		for _, pe := range calls {
+			parse(pe, r.Chance(0.2))
+		}
+		o.Count("class:history:failed-Parse-with-sub-name-keys-next-to-a-fixed-list-on-.fullname")
+		if err := useAll(); err != nil {
+			return err
+		}
 	}
 	if directed < 0 && r.Chance(0.4) {
 		if !parse(good(), r.Chance(0.3)) {
@@ -1028,6 +1191,17 @@ func genC06(o *hx.Out, r *hx.Rng, tier string, replay string) error {
 	}
 	// histories with failing Parse calls (own stream)
 	h := r.Split()
+	// results without measurements (own stream, split last)
+	em := r.Split()
+	nEmpty := 120
+	if tier == "thorough" {
+		nEmpty = 2000
+	}
+	for i := 0; i < nEmpty; i++ {
+		if err := c06Empty(o, em); err != nil {
+			return err
+		}
+	}
 	nhist := 400
 	if tier == "thorough" {
 		nhist = 8000
@@ -1041,6 +1215,12 @@ func genC06(o *hx.Out, r *hx.Rng, tier string, replay string) error {
 	}
 	for i := 0; i < nhist; i++ {
 		if err := c06Hist(o, h, -1); err != nil {
+			return err
+		}
+	}
+	hf := h.Split()
+	for i := 0; i < nhist/2; i++ {
+		if err := c06Hist(o, hf, 3); err != nil {
 			return err
 		}
 	}
